@@ -355,7 +355,7 @@ func (f *Font) GetOTLigatureCarets(direction Direction, glyph GID) []Position {
 	}
 
 	index, ok := list.Coverage.Index(gID(glyph))
-	if !ok {
+	if !ok || index >= len(list.LigGlyphs) {
 		return nil
 	}
 
